@@ -25,7 +25,15 @@ ASSUMPTIONS = [
 TECHNIQUE = "Hypothesis-generated optimisation problems; brute-force reference optimum + metamorphic re-ask + differential between optimisers + interruption points"
 
 PROFILE = S.profile(min_tasks=1, max_tasks=3, horizon=(2, 5), p_no_horizon=0, p_resources=70, task_constraints=(0, 2), optional_rules=(0, 1), resource_constraints=(0, 1),
-                    buffers=(0, 1), indicators=(0, 2), objectives=(1, 2), p_optional=25, p_release=20, p_due=35, p_work_amount=10, p_cumulative=15)
+                    buffers=(0, 1), indicators=(0, 2), objectives=(1, 2), p_optional=25, p_release=20, p_due=35, p_work_amount=10, p_cumulative=15, p_indicator_bounds=60)
+# a second stratum: objectives over bounded indicators (user bounds, utilisation 0..100) - the early 'bound reached' exit of the
+# incremental loop - with few other elements so that the first model often sits on a bound
+PROFILE_BOUNDED = S.profile(min_tasks=1, max_tasks=2, horizon=(2, 5), p_no_horizon=0, p_resources=80, task_constraints=(0, 1), optional_rules=(0, 0), resource_constraints=(0, 0),
+                            indicators=(1, 2), indicator_types=["FromMathExpression", "ResourceUtilization", "FromMathExpression"], objectives=(1, 1), p_optional=35,
+                            p_release=10, p_due=10, p_work_amount=0, p_cumulative=0, p_select=20, p_indicator_bounds=85, only_objectives=["MinimizeIndicator", "MaximizeIndicator"])
+# start-time objectives over optional tasks (an unscheduled task contributes to no objective)
+PROFILE_STARTOBJ = S.profile(min_tasks=2, max_tasks=3, horizon=(2, 5), p_no_horizon=0, p_resources=40, task_constraints=(0, 2), optional_rules=(0, 1), resource_constraints=(0, 0),
+                             objectives=(1, 1), only_objectives=["TasksStartLatest", "MinimizeGreatestStartTime"], p_optional=65, p_release=20, p_due=30)
 VALID_FAMILIES = ("T", "W", "TC", "RC", "OPT", "BUF", "FOL")
 
 
@@ -296,8 +304,10 @@ def prop(ctx, case):
 
 
 def run_shard(ctx):
-    n = {"quick": 55, "thorough": 500}[ctx.tier]
+    n = {"quick": 40, "thorough": 400}[ctx.tier]
     run_hypothesis(ctx, S.spec_with_pins(PROFILE, n_sets=0), prop, max_examples=n)
+    run_hypothesis(ctx, S.spec_with_pins(PROFILE_BOUNDED, n_sets=0), prop, max_examples=n)
+    run_hypothesis(ctx, S.spec_with_pins(PROFILE_STARTOBJ, n_sets=0), prop, max_examples=n // 2)
 
 
 def replay(record):
